@@ -25,7 +25,7 @@ func TestSmoke(t *testing.T) {
 		if err := e.MP.AddTx("", a1.Transfer(0, a2.Addr, LKC(5))); err != nil {
 			t.Fatal(err)
 		}
-		dep, coins, err := a1.Deposit(1, []*Wallet{w}, []*big.Int{LKC(100)}, DepositFee(LKC(100)))
+		dep, coins, err := a1.Deposit(1, []*Wallet{w, w, w}, []*big.Int{LKC(100), LKC(7), LKC(9)}, DepositFee(LKC(116)))
 		if err != nil {
 			t.Fatal(err)
 		}
@@ -38,7 +38,8 @@ func TestSmoke(t *testing.T) {
 		}
 		fmt.Println("isTrie", isTrie, "block 1 txs", b.NumTxs, "located", e.Locate(coins[0]), coins[0].Global)
 		fee := Fee(e.SpendFeeGas(LKC(100)))
-		sp, _, err := Spend(coins[0], LKC(100), &a2.Addr, new(big.Int).Sub(LKC(100), fee), nil, nil)
+		sp, _, err := SpendRing(coins[0], e.Decoys(coins[0], 2), LKC(100), &a2.Addr, new(big.Int).Sub(LKC(100), fee), nil, nil)
+		fmt.Println("  ring size", len(e.Decoys(coins[0], 2))+1)
 		if err != nil {
 			t.Fatal(err)
 		}
